@@ -55,6 +55,10 @@ type (
 	}
 )
 
+// lexerEOF is what next() returns at the end of the input. It is no valid rune, so that
+// no byte of the input (the token type constant EOF has the value 1) can be mistaken for it.
+const lexerEOF rune = -1
+
 type (
 	lexerStateFn func() lexerStateFn
 	lexer        struct {
@@ -168,7 +172,7 @@ func (l *lexer) emit(t TokenType) {
 func (l *lexer) next() rune {
 	if l.pos >= len(l.input) {
 		l.width = 0
-		return EOF
+		return lexerEOF
 	}
 	r, w := utf8.DecodeRuneInString(l.input[l.pos:])
 	l.width = w
@@ -265,7 +269,7 @@ func (l *lexer) run() {
 
 				for {
 					switch l.peek() {
-					case EOF:
+					case lexerEOF:
 						l.errorf("Single-line comment not closed.")
 						return
 					case '\n':
@@ -305,7 +309,7 @@ func (l *lexer) run() {
 			l.line++
 			l.col = 0
 		}
-		if l.next() == EOF {
+		if l.next() == lexerEOF {
 			break
 		}
 	}
@@ -422,7 +426,7 @@ func (l *lexer) stateString() lexerStateFn {
 			default:
 				return l.errorf("Unknown escape sequence: \\%c", l.peek())
 			}
-		case EOF:
+		case lexerEOF:
 			return l.errorf("Unexpected EOF, string not closed.")
 		case '\n':
 			return l.errorf("Newline in string is not allowed.")
